@@ -349,10 +349,89 @@ func c06Semantic(c *core.Ctx, idx int) {
 	c.NonTrivial(src, []byte(ver))
 }
 
+// c06Deep: nesting depth as the hostile dimension. One nesting construct (brackets of every kind, blocks,
+// ifs, calls, closures, ternaries, prefix-operator and assignment chains) is nested n deep, n drawn from
+// round numbers, powers of two and their neighbours up to 70 000 — the sizes at which a parser stack, a
+// recursion guard or a counter would give up. The valid program must parse silently and completely
+// (tiling + print-back through c06Input); the same program with one closer removed from the middle of
+// the closing run, or one opener too many, must deliver an error.
+var c06DeepN = []int{63, 64, 65, 127, 128, 129, 199, 200, 255, 256, 257, 499, 500, 511, 512, 513, 999, 1000, 1001, 1023, 1024, 1025, 1999, 2000, 2047, 2048, 2049,
+	3333, 4095, 4096, 4097, 4999, 5000, 5001, 8191, 8192, 8193, 9999, 10000, 10001, 12500, 16383, 16384, 16385, 20000, 25000, 32767, 32768, 32769, 40000, 50000, 65535, 65536, 65537, 70000}
+
+func c06DeepShapes() []gen.ScaledShape {
+	var out []gen.ScaledShape
+	for _, sh := range gen.ScaledShapes {
+		switch {
+		case strings.HasPrefix(sh.Name, "nested-") && sh.Name != "nested-interpolations":
+			out = append(out, sh)
+		case sh.Name == "unary-chain", sh.Name == "cast-chain", sh.Name == "assign-chain", sh.Name == "pow-chain-right-assoc", sh.Name == "short-ternary-chain", sh.Name == "plus-chain", sh.Name == "concat-chain", sh.Name == "elseif-chain", sh.Name == "dimension-chain", sh.Name == "method-chain":
+			out = append(out, sh)
+		}
+	}
+	return out
+}
+
+func c06Deep(c *core.Ctx, idx int) {
+	r := core.NewRand(c.P.Seed, "C06deep", idx)
+	shapes := c06DeepShapes()
+	sh := shapes[r.Intn(len(shapes))]
+	n := c06DeepN[r.Intn(len(c06DeepN))]
+	if r.Chance(1, 4) {
+		n = r.Range(60, 70000)
+	}
+	if !c.P.Thorough() && n > 20000 && r.Chance(2, 3) {
+		n = n%20000 + 60
+	}
+	ver := progVersion(r, []int{5, 7}[r.Intn(2)], false)
+	src := []byte(sh.Make(n, r.Pick("\n", "\n", "\r\n")))
+	nerr, _ := c06Input(c, src, ver)
+	c.Add("deep_programs", 1)
+	c.Max("deepest_nesting", int64(n))
+	c.Cover("deep-shapes", sh.Name)
+	if nerr > 0 {
+		pr := obs.Parse(src, ver, true)
+		c.Violation(fmt.Sprintf("deep|rejected|%s|fam%d", sh.Name, obs.Fam(ver)), fmt.Sprintf("the valid program %s nested %d deep delivered errors under %s: %v", sh.Name, n, ver, obs.ErrStrings(pr.Errors)), core.W(src, ver).With("shape", sh.Name).With("n", fmt.Sprint(n)))
+		return
+	}
+	// broken variants (only for the shapes whose closers are brackets)
+	if strings.HasPrefix(sh.Name, "nested-") && sh.Name != "nested-closures" {
+		s := string(src)
+		var broken string
+		edit := ""
+		if k := strings.LastIndexAny(s, ")]}"); k > 0 && r.Bool() {
+			// remove a closer from the middle of the closing run
+			first := k
+			for first > 0 && strings.ContainsRune(")]} :2\r\n", rune(s[first-1])) {
+				first--
+			}
+			mid := first + (k-first)/2
+			for mid < k && !strings.ContainsRune(")]}", rune(s[mid])) {
+				mid++
+			}
+			broken, edit = s[:mid]+s[mid+1:], "closer-removed"
+		} else {
+			k := strings.IndexAny(s, "([{")
+			if k < 0 {
+				return
+			}
+			broken, edit = s[:k]+s[k:k+1]+s[k:], "opener-doubled"
+		}
+		nb, _ := c06Input(c, []byte(broken), ver)
+		c.Add("deep_broken_programs", 1)
+		if nb == 0 {
+			if pr := obs.Parse([]byte(broken), ver, true); pr.Panic == nil {
+				c.Violation(fmt.Sprintf("swallowed|fam%d|deep-%s|%s", obs.Fam(ver), edit, sh.Name), fmt.Sprintf("%s nested %d deep with one %s was parsed under %s without any error", sh.Name, n, edit, ver), core.W([]byte(broken), ver).With("shape", sh.Name).With("n", fmt.Sprint(n)))
+				return
+			}
+		}
+	}
+	c.NonTrivial([]byte(sh.Name), []byte(fmt.Sprint(n)), []byte(ver))
+}
+
 func init() {
 	core.Register(&core.Check{
 		ID:   "C06",
-		Rule: "cases = known-finding witnesses ++ alternately (a) a generated valid program with 6 (quick) / 20 (thorough) independent guaranteed-breaking edits {insert unmatched closer/opener, delete one bracket, truncate after an operator, insert the operator pair '* /', append a stray quote} in PRNG layouts: >= 1 error required, (a') a valid program with a PHP 5 compile-time error reported by the grammar actions (trait with extends/implements, foreach key by reference) inserted at a top-level boundary, or with the closing label of its last heredoc lengthened: >= 1 error required, (b) a hostile G3 input, and 3 (quick) / 24 (thorough) runs of the real CLI with -e -p over 200 / 800 such files whose printed error blocks must equal the errors delivered for each file alone; for every parse: shape of every delivered error, callback-vs-nil tree equality, (for a third of the inputs with errors) a nested parse run from inside the callback, and for silent parses non-nil tree + tiling + print-back; non-trivial = program whose every broken variant was reported / hostile input that delivered an error; distinct by expected structure / input bytes",
+		Rule: "cases = known-finding witnesses ++ alternately (a) a generated valid program with 6 (quick) / 20 (thorough) independent guaranteed-breaking edits {insert unmatched closer/opener, delete one bracket, truncate after an operator, insert the operator pair '* /', append a stray quote} in PRNG layouts: >= 1 error required, (a') a valid program with a PHP 5 compile-time error reported by the grammar actions (trait with extends/implements, foreach key by reference) inserted at a top-level boundary, or with the closing label of its last heredoc lengthened: >= 1 error required, (b) a hostile G3 input, (c) every 100th case a nesting construct nested 60..70 000 deep (brackets of every kind, blocks, ifs, calls, closures, ternaries, operator chains; depths at round numbers and powers of two): the valid program must parse silently and completely, the same program with one closer removed or one opener doubled must deliver an error, and 3 (quick) / 24 (thorough) runs of the real CLI with -e -p over 200 / 800 such files whose printed error blocks must equal the errors delivered for each file alone; for every parse: shape of every delivered error, callback-vs-nil tree equality, (for a third of the inputs with errors) a nested parse run from inside the callback, and for silent parses non-nil tree + tiling + print-back; non-trivial = program whose every broken variant was reported / hostile input that delivered an error; distinct by expected structure / input bytes",
 		Assumptions: []string{
 			"'invalid' is only asserted for edits that are invalid by a counting argument (brackets balance in every valid program; no valid program ends in an operator; no grammar allows '* /')",
 			"an error message of the form unexpected 'X' names a single-character token whose text must be selected by the span; the close tag is delivered as ';'",
@@ -361,6 +440,10 @@ func init() {
 		Run: func(c *core.Ctx, idx int) {
 			if idx < c.P.Pick(3, 24) {
 				c06CLI(c, idx)
+				return
+			}
+			if idx%100 == 7 {
+				c06Deep(c, idx)
 				return
 			}
 			if idx%2 == 0 {
